@@ -761,6 +761,10 @@ func PhytoOut(g *GlobalVarsMain, l *CropSharedVars, hPath *HFilePath, zeit int, 
 	} else {
 		g.GEHOB = (g.PESUM + SUMPE + g.NFIX - g.WUMAS*g.WUGEH) / g.OBMAS
 	}
+	// the roots keep a minimum N concentration; when the crop holds less N than that, nothing is left for the shoot
+	if g.GEHOB < 0 {
+		g.GEHOB = 0
+	}
 }
 
 // radia  Strahlunsinterception, Photosynthese und Erhaltungsatmung nach Penning de Vries 1982
